@@ -3,14 +3,31 @@
 import json, os, sys
 here = os.path.dirname(os.path.dirname(os.path.abspath(__file__)))
 sys.path.insert(0, os.path.join(here, "harness"))
-import registry
+import glob
+COMMON_NOTE = (
+    "Trusted: Lean 4 kernel with axioms propext/Classical.choice/Quot.sound only (audited per theorem "
+    "on every run, no sorry/native_decide/own axioms); the hand-written Lean model is tied to /repo by "
+    "the correspondence run of this check (model driver vs real ginjax imported from /repo/src on the "
+    "same generated inputs); numpy/jax primitives are modelled, not verified. "
+)
+PLANNED_REASON = (
+    "check not built yet in this round (design in DESIGN.md section 5); no claim is made until its Lean "
+    "model, theorems and correspondence run exist"
+)
+CLAIMED = {}
+for f in sorted(glob.glob(os.path.join(here, "harness", "registry", "C*.json"))):
+    CLAIMED[os.path.basename(f)[:-5]] = json.load(open(f))
+NOT_APPLICABLE = {}
+naf = os.path.join(here, "harness", "registry", "not_applicable.json")
+if os.path.exists(naf):
+    NOT_APPLICABLE = json.load(open(naf))
 
 props = [json.loads(l) for l in open(os.path.join(here, "properties.jsonl"))]
 checks, na = [], []
 for p in props:
     pid = p["id"]
-    if pid in registry.CLAIMED:
-        r = registry.CLAIMED[pid]
+    if pid in CLAIMED:
+        r = CLAIMED[pid]
         checks.append({
             "property_id": pid,
             "quick_cmd": f"./check {pid} --tier quick",
@@ -19,11 +36,11 @@ for p in props:
             "replay_cmd_template": f"./check {pid} --replay {{path}}",
             "engine": "lean4-model+correspondence",
             "level_claimed": {"category": "proof", "text": r["text"], "design_ref": r["design_ref"]},
-            "level_note": r["note"],
+            "level_note": COMMON_NOTE + r["note"],
             "technique": r["technique"],
         })
     else:
-        na.append({"property_id": pid, "reason": getattr(registry, "NOT_APPLICABLE", {}).get(pid, registry.PLANNED_REASON)})
+        na.append({"property_id": pid, "reason": NOT_APPLICABLE.get(pid, PLANNED_REASON)})
 m = {
     "version": 1,
     "setup_cmd": "cd lean && lake build GinjaxVerif gvdriver",
